@@ -37,10 +37,11 @@ type cheat struct {
 	commitRule string
 	newCommit  interface{}
 	// zero-constant dealer (FROST key generation): replacement polynomial commitment and proof for the round-2 broadcast
-	zeroConst bool
-	newPhi    *polynomial.Exponent
-	newSigma  *zksch.Proof
-	applied   bool // a state alteration (doerner:kinv) was carried out
+	zeroConst   bool
+	newPhi      *polynomial.Exponent
+	newSigma    *zksch.Proof
+	applied     bool // a state alteration (doerner:kinv, frost:degree) was carried out
+	degreeDelta int
 }
 
 func typeName(s interface{}) string {
@@ -289,6 +290,7 @@ func (p *proxy) Finalize(out chan<- *round.Message) (round.Session, error) {
 		p.c.zeroDeal(next)
 		p.c.after(next)
 		p.c.doernerAfter(next)
+		p.c.degreeAfter(next)
 		if p.c.observe != nil {
 			p.c.observe(next)
 		}
@@ -368,9 +370,20 @@ func FrostDealerCheat(s *Session, cheater party.ID, delta int, sid []byte, mk fu
 				return nil, fmt.Errorf("degree would be negative")
 			}
 			f.SetInt(f.Int() + int64(delta))
-			return r, nil
+			// the dealer samples its polynomial with the altered degree in round 1 and goes back to the agreed threshold
+			// afterwards: it checks what the others send like everybody else
+			return wrap(r, &cheat{rule: "frost:degree", degreeDelta: delta}), nil
 		}
 	}, sid)
+}
+
+func (c *cheat) degreeAfter(next round.Session) {
+	if c.rule != "frost:degree" || typeName(next) != "round2" || c.applied {
+		return
+	}
+	if setUnexported(next, "threshold", func(old interface{}) interface{} { return old.(int) - c.degreeDelta }) {
+		c.applied = true
+	}
 }
 
 // PolySpy holds the secret polynomial of a FROST dealer once it has been sampled.
